@@ -2,7 +2,7 @@
 Spec types/CApi.tla (+ mc/MC_CApi.tla); cfgs mc/CApi_{design,scalars,gen,sim}.cfg; replayer harness/capi_replay.cpp
 (C headers only).
 """
-import json, os, struct, time
+import json, os, re, struct, time
 from concurrent.futures import ThreadPoolExecutor
 from vlib import Broken, b_json, run_replayer
 
@@ -21,7 +21,7 @@ def concrete(t, v):
     """the concrete value the harness uses for token v of C type t (format conversion of the token)"""
     if t in INT_RANGE:
         lo, hi = INT_RANGE[t]
-        return {"MIN": lo, "M1": -1, "ZERO": 0, "ONE": 1, "MAX": hi}[v]
+        return {"MIN": lo, "M1": -1, "ZERO": 0, "ONE": 1, "MAX": hi, "HALF": (hi + 1) // 2}[v]
     if t in FLT:
         return {"M1": -1.0, "ZERO": 0.0, "ONE": 1.0}.get(v, FLT[t].get(v))
     if t == "bool":
@@ -43,6 +43,78 @@ def same_value(t, v, text):
     except ValueError:
         return False
     return text == ""
+
+
+def expected_value(x):
+    """the spec's value tree -> the python value its JSON text must parse to (format conversion of tokens)"""
+    t = x["t"]
+    if t == "obj":
+        return {kv["k"]: expected_value(kv["val"]) for kv in x["kids"]}
+    if t == "arr":
+        return [expected_value(kv["val"]) for kv in x["kids"]]
+    if t == "null":
+        return None
+    if t == "bool":
+        return x["v"] == "ONE"
+    return concrete(t, x["v"])
+
+
+DUMP_TOKEN = re.compile(r'''"(?:\\.|[^"\\])*"|(-?\d+(?:\.\d+)?(?:[eE][-+]?\d+)?)(?:[uU]?[lL]{1,2}|[uU]|[fF])?''')
+
+
+def parse_dump(text):
+    """occa's dump writes numbers as C literals (4294967295U, -9223372036854775808L, 1.0e-01f) and control
+    characters raw inside strings; drop the literal suffixes and parse leniently (format conversion)"""
+    norm = DUMP_TOKEN.sub(lambda m: m.group(0) if m.group(1) is None else m.group(1), text)
+    return json.loads(norm, strict=False)
+
+
+def same_json(want, got):
+    """structural equality; integers exactly, floating point up to the printing precision of the dump"""
+    if isinstance(want, dict):
+        return isinstance(got, dict) and set(want) == set(got) and all(same_json(want[k], got[k]) for k in want)
+    if isinstance(want, list):
+        return isinstance(got, list) and len(want) == len(got) and all(same_json(a, b) for a, b in zip(want, got))
+    if isinstance(want, bool) or want is None or isinstance(want, str):
+        return type(want) is type(got) and want == got
+    if isinstance(got, bool) or not isinstance(got, (int, float)):
+        return False
+    if isinstance(want, int):
+        return isinstance(got, int) and got == want or (isinstance(got, float) and got == want and abs(want) < 2 ** 53)
+    return abs(got - want) <= 1e-5 * abs(want)
+
+
+def check_wide_and_text(ctx, exp, got, a, case, stats):
+    """reads that do not depend on the type the value was stored with: as int64 / uint64 / double where the
+    spec says the value is representable, and through the text of occaJsonDump"""
+    t = exp["tag"][5:]
+    if exp["rd"]["i64"] or exp["rd"]["u64"] or exp["rd"]["f64"]:
+        want = concrete(t, exp["v"])
+        for T, conv in (("i64", int), ("u64", int), ("f64", float.fromhex)):
+            if not exp["rd"][T]:
+                continue
+            try:
+                ok = conv(got[T]) == want
+            except (ValueError, KeyError):
+                ok = False
+            if not ok:
+                ctx.mismatch("json:%s:read-as-%s:%s:%s" % (a, T, t, exp["v"]),
+                             "stored %s %s = %r; occaJsonGetNumber(.., %s) = %r" % (t, exp["v"], want, T, got.get(T)), [case])
+    if "dump" in got and t != "none":
+        stats["dumps"] += 1
+        try:
+            parsed = parse_dump(got["dump"])
+        except ValueError:
+            stats["dumps_unparsed"] += 1     # the text syntax itself is C24's subject
+            return
+        want = expected_value(exp["val"])
+        if not same_json(want, parsed):
+            kind = t if t in ("obj", "arr") else ("number" if t in BYTES and t != "bool" else t)
+            ctx.mismatch("json:%s:dump:%s" % (a, kind), "occaJsonDump of handle %d = %s; the spec's document is %r" %
+                         (exp["h"], got["dump"][:300], want), [case])
+
+
+STATS = {"dumps": 0, "dumps_unparsed": 0}
 
 
 def to_step(s):
@@ -91,6 +163,7 @@ def check_read(ctx, exp, got, step, case):
         want_is = "BN"            # occa::json keeps a boolean as a number of type bool: isNumber() is true as well
     if got["is"] != want_is:
         return ctx.mismatch("json:%s:kind:%s" % (a, t), "%s: handle %d is %r, spec %s" % (a, exp["h"], got["is"], t), [case])
+    check_wide_and_text(ctx, exp, got, a, case, STATS)
     if t in ("arr", "obj"):
         if got["n"] != exp["n"]:
             ctx.mismatch("json:%s:size:%s" % (a, t), "%s: handle %d has %d entries, spec %d" % (a, exp["h"], got["n"], exp["n"]), [case])
@@ -259,11 +332,13 @@ def run(ctx):
     ctx.notes.append("phase wall seconds: TLC %.0f, build+replay+compare %.0f" % (t1 - t0, t2 - t1))
     ctx.traces_validated = len(outs)
     ctx.samples = [cases[0], cases[len(cases) // 2], cases[-1]]
-    ctx.cov.update({"behaviours_replayed": len(outs), "handle_reads_checked": reads, "crashes": len(crashes),
+    ctx.cov.update({"behaviours_replayed": len(outs), "handle_reads_checked": reads,
+                    "dumps_compared": STATS["dumps"] - STATS["dumps_unparsed"], "dumps_unparsed": STATS["dumps_unparsed"], "crashes": len(crashes),
                     "generated": counts, "actions_taken": {a: v[1] for a, v in r.coverage.items() if a[0].isupper()}})
     ctx.assumptions += [
-        "scalar tokens MIN/-1/0/1/MAX (integers), -MAX/-1/0/1/MAX/smallest normal/0.1 (float, double), bool, three strings (empty, plain, with quote/backslash/newline), null",
-        "typed read-back of a JSON number = occaJsonGetNumber(handle, the C type it was stored with); occaJsonObjectGet/ArrayGet return references by design",
+        "scalar tokens MIN/-1/0/1/2^(w-1)/MAX (integers), -MAX/-1/0/1/MAX/smallest normal/0.1 (float, double), bool, three strings (empty, plain, with quote/backslash/newline), null",
+        "a stored number is read back as the C type it was stored with, as int64, uint64 and double wherever the spec says the value is representable there, and through occaJsonDump of every live handle (owner handles: the whole document; integers compared exactly, floating point up to the dump's printing precision; a dump that is not parseable JSON is counted, not judged: text syntax is C24's subject); occaJsonObjectGet/ArrayGet return references by design",
+        "integer tokens: least value, -1 (signed), 0, 1, 2^(w-1) (unsigned), greatest value -- for every width, in the quick tier too",
         "a reference handle is used only while its owner lives and its location exists (ArrayPop/Clear/Insert and ObjectSet over a container end the locations below); ObjectSet of other keys must not invalidate",
         "ArrayPush: the intended behaviour (element handles stay valid) is generated by CApi_pushref.cfg only; all other runs use the named deviation PushKeepsRefs = FALSE (element handles of an array end at a push), so that the rest of each history keeps being validated",
         "documents of depth <= 2, keys {a,b}, arrays up to 2 (exhaustive) / 4 (simulation) entries, up to 3 / 6 handles",
